@@ -162,7 +162,8 @@ void SimSslSocket::connectToHost(const QString &hostName, quint16 port, OpenMode
     m_in.clear();
     simEncrypted = false;
     closePending = false;
-    directTls = (mode() == SslClientMode);
+    directTls = directTlsRequested || (mode() == SslClientMode);
+    directTlsRequested = false;
     setPeerName(hostName);
     setPeerPort(port);
     toState(HostLookupState);
@@ -371,5 +372,14 @@ void QSslSocket::startClientEncryption()
 }
 
 void QSslSocket::startServerEncryption() { }
+
+// direct TLS: the handshake starts as soon as the TCP connection exists
+void QSslSocket::connectToHostEncrypted(const QString &hostName, quint16 port, OpenMode mode, NetworkLayerProtocol protocol)
+{
+    if (sim::simSockets().contains(this)) {
+        static_cast<SimSslSocket *>(this)->directTlsRequested = true;
+    }
+    connectToHost(hostName, port, mode, protocol);
+}
 
 bool QSslSocket::flush() { return true; }
